@@ -28,8 +28,8 @@ CLASSES = ["honest", "honest", "honest", "honest_junk", "replay_current", "rollb
 
 
 def plan(tier, seed):
-    n = 64 if tier == "quick" else 1600
-    shards = 8 if tier == "quick" else 16
+    n = 240 if tier == "quick" else 6400
+    shards = 12 if tier == "quick" else 32
     return [{"kind": "hist", "count": n // shards, "maxlen": 15 if tier == "quick" else 40} for _ in range(shards)]
 
 
